@@ -37,7 +37,17 @@ pub fn random_game(rng: &mut StdRng) -> Game {
     // mostly ordinary lengths, some tiny games, and a few marathon games (move numbers beyond 255 / 300)
     let len = match rng.gen_range(0..100) { 0..=9 => rng.gen_range(0..4), 10..=12 => rng.gen_range(500..720), _ => rng.gen_range(4..160) };
     let policy = if len >= 500 { gen::Policy::Shuffle } else { policy };
-    let start = Pos::startpos();
+    // one game in six is a from-position game ([FEN]/[SetUp] tags, as Lichess writes them) that starts
+    // with two to four like pieces able to reach one square: its movetext carries file, rank and
+    // full-square disambiguation, which walks from the initial position practically never reach
+    let setup = if len < 500 && rng.gen_range(0..6) == 0 {
+        let p = gen::disambiguation_position(rng);
+        let mut p = if p.wtm { p } else { p.flip() };
+        p.half = 0;
+        p.full = 1;
+        if p.wtm && p.is_legal_position() && !p.legal_moves().is_empty() { Some(p) } else { None }
+    } else { None };
+    let start = setup.clone().unwrap_or_else(Pos::startpos);
     let (ps, ms) = gen::walk(rng, &start, policy, len);
     let mut moves = Vec::new();
     for (i, m) in ms.iter().enumerate() {
@@ -72,6 +82,10 @@ pub fn random_game(rng: &mut StdRng) -> Game {
         // a tag pair may carry an empty value (titles of untitled players, unknown events)
         let v = if *name != "Result" && rng.gen_range(0..25) == 0 { String::new() } else { v };
         tags.push((name.to_string(), v));
+    }
+    if let Some(p) = &setup {
+        tags.push(("FEN".to_string(), p.to_fen()));
+        tags.push(("SetUp".to_string(), "1".to_string()));
     }
     Game { tags, moves, comments, result, end_fen: last.to_fen() }
 }
@@ -200,9 +214,18 @@ pub fn check_database(rng: &mut StdRng, rep: &mut Report, n_configs: usize) {
         // replay through the board
         if ci == 0 {
             for (gi, g) in games.iter().enumerate() {
-                if let Some(Ok((_, mv))) = got.get(gi) {
+                if let Some(Ok((tags_read, mv))) = got.get(gi) {
+                    if tags_read.contains_key("FEN") { rep.count("games_from_setup_position"); }
+                    for (san, _) in mv.iter() {
+                        let body = san.trim_start_matches(|c: char| "NBRQK".contains(c));
+                        let hints = body.trim_end_matches(|c| c == '+' || c == '#').chars().filter(|c| c.is_ascii_lowercase() && *c != 'x').count() + body.chars().filter(|c| c.is_ascii_digit()).count();
+                        if san.starts_with(|c: char| "NBRQ".contains(c)) && hints >= 4 { rep.count("replayed_moves_with_full_square_disambiguation"); }
+                    }
                     let r = guarded_mut(|| {
-                        let mut bb = Bitboard::default();
+                        let mut bb = match tags_read.get("FEN") {
+                            Some(f) => Bitboard::from_fen_string(f).map_err(|e| format!("[FEN \"{}\"] not accepted: {:?}", f, e))?,
+                            None => Bitboard::default(),
+                        };
                         for (k, (san, _)) in mv.iter().enumerate() {
                             match bb.pgn_to_bb(san) { Ok(m) => bb.make(m), Err(_) => return Err(format!("move {} {:?} not accepted", k, san)) }
                         }
